@@ -60,7 +60,13 @@ pub(super) fn get_highest_index(file_spec: &FileSpec) -> Option<u32> {
             &name[1..]
         };
 
-        let idx: u32 = infix.parse().unwrap_or(0);
+        // (the infix can be followed by the suffix, if the file is compressed)
+        let idx: u32 = infix
+            .chars()
+            .take_while(char::is_ascii_digit)
+            .collect::<String>()
+            .parse()
+            .unwrap_or(0);
         o_highest_idx = match o_highest_idx {
             None => Some(idx),
             Some(prev) => Some(max(prev, idx)),
